@@ -147,7 +147,7 @@ func init() {
 			"one ONCE call site per query; no LIMIT; function errors under ASYNC belong to C10/C19; SPIN completion before return is not required (only 'adds no column')",
 			"ASYNC calls appear as direct select-list items (the README rules out ASYNC inside FROM clauses)",
 		},
-		Floor:         []string{"q.plain", "q.async", "q.spinasync", "q.spin", "q.once", "q.await-async", "star", "where", "nested", "shape.union", "shape.cte", "shape.multidim", "arg.null", "page", "page.empty", "joinop.derived", "joinop.both", "lat.zero", "lat.yield", "lat.random", "lat.skewed", "lat.straggler", "table.empty", "imm.async", "imm.spin", "imm.spinasync", "imm.harness", "imm.harness-mixedcase"},
+		Floor:         []string{"q.plain", "q.async", "q.spinasync", "q.spin", "q.once", "q.await-async", "star", "where", "nested", "shape.union", "shape.cte", "shape.multidim", "arg.null", "page", "page.empty", "order.async", "distinct.async", "joinop.derived", "joinop.both", "lat.zero", "lat.yield", "lat.random", "lat.skewed", "lat.straggler", "table.empty", "imm.async", "imm.spin", "imm.spinasync", "imm.harness", "imm.harness-mixedcase"},
 		MinNontrivial: 30,
 		Phases: []fw.Phase{
 			{Name: "ledger", N: func(t fw.Tier) int { return pick(t, 2500, 40000) }, Run: func(c *fw.Case) { c14Ledger(c, false) }},
@@ -200,7 +200,7 @@ func c14Ledger(c *fw.Case, race bool) {
 	}
 	t := gen.RandTable(c.R, gen.TableSpec{Name: "t1", MaxRows: 12, NumCols: 2, StrCols: 1, BoolCols: 1, NullCols: 1, StrStyle: gen.Plain})
 	force := ""
-	forced := []string{"q.plain", "q.async", "q.spinasync", "q.spin", "q.once", "q.await-async", "star", "where", "nested", "table.empty", "shape.union", "shape.cte", "shape.multidim", "arg.null", "page", "page.empty"}
+	forced := []string{"q.plain", "q.async", "q.spinasync", "q.spin", "q.once", "q.await-async", "star", "where", "nested", "table.empty", "shape.union", "shape.cte", "shape.multidim", "arg.null", "page", "page.empty", "order.async", "distinct.async"}
 	if c.Idx < 3*len(forced) {
 		force = forced[c.Idx%len(forced)]
 	}
@@ -230,6 +230,17 @@ func c14Ledger(c *fw.Case, race bool) {
 	// select list are complete at return, whatever the page keeps
 	page := force == "page" || force == "page.empty" || (force == "" && !nested && shape == "" && c.Chance(0.2))
 	pageLim, pageOff := 0, 0
+	// ORDER BY / DISTINCT over a column produced by a background call: the rows
+	// are ordered / deduplicated by the values, as with the unqualified call
+	byValue := ""
+	if !page && !nested && shape == "" {
+		switch {
+		case force == "order.async" || (force == "" && c.Chance(0.12)):
+			byValue = "order"
+		case force == "distinct.async" || (force == "" && c.Chance(0.08)):
+			byValue = "distinct"
+		}
+	}
 	if shape != "" {
 		feats = append(feats, "shape."+shape)
 	}
@@ -258,6 +269,13 @@ func c14Ledger(c *fw.Case, race bool) {
 		if page && q == "SPIN" {
 			q = "SPINASYNC"
 		}
+		if byValue != "" {
+			if i == 0 {
+				q = gen.Pick(c.R, []string{"ASYNC", "AWAIT-ASYNC"})
+			} else if q == "ONCE" || q == "SPIN" {
+				q = "SPINASYNC"
+			}
+		}
 		if q == "ONCE" {
 			if usedOnce || nested || shape == "union" {
 				q = "ASYNC"
@@ -283,9 +301,15 @@ func c14Ledger(c *fw.Case, race bool) {
 		where = (&gen.PredGen{R: c.R, T: t, MaxDepth: 1, Disable: map[string]bool{"in.subquery": true, "isnull": true, "isnotnull": true}}).Gen()
 		feats = append(feats, "where")
 	}
+	orderDir := gen.Pick(c.R, []string{"", " ASC", " DESC"})
+	if byValue != "" {
+		feats = append(feats, byValue+".async")
+	}
 	render := func(stripQual bool) string {
 		var parts []string
-		if star && !nested {
+		if byValue == "distinct" {
+			// no row identity in the select list: equal values make equal rows
+		} else if star && !nested {
 			parts = append(parts, "*")
 		} else {
 			parts = append(parts, "rid")
@@ -337,6 +361,12 @@ func c14Ledger(c *fw.Case, race bool) {
 		}
 		if page {
 			sql += fmt.Sprintf(" LIMIT %d OFFSET %d", pageLim, pageOff)
+		}
+		switch byValue {
+		case "order":
+			sql += " ORDER BY " + items[0].alias + orderDir + ", rid"
+		case "distinct":
+			sql = strings.Replace(sql, "SELECT ", "SELECT DISTINCT ", 1)
 		}
 		switch shape {
 		case "union":
@@ -480,6 +510,19 @@ func c14Ledger(c *fw.Case, race bool) {
 				want = want[:pageLim]
 			}
 		}
+	}
+	if byValue != "" {
+		// the oracle for the rows is the same query with the qualifiers removed
+		ledgerReset()
+		c14Plan(c, "zero", sites, 64)
+		base := vfEntered.Load()
+		plain := Run(val.CopyMap(DocOf(t)), render(true))
+		waitCalls(base, expectedCalls)
+		if !plain.OK() {
+			c.Discard("the unqualified form is rejected (not judged): " + short(fmt.Sprint(plain.Describe()), 100))
+			return
+		}
+		want = plain.Rows
 	}
 	profiles := c14Profiles
 	nprof := pick(c.Tier, 3, 12)
